@@ -54,7 +54,11 @@ def scaled_spec(draw):
         lo, hi = min(a, b), max(a, b)
     else:
         lo, hi = draw(_sorted2(S_LIMITS))
-    return {'k': 'scaled', 'scale': draw(st.sampled_from(S_SCALES)), 'lo': lo, 'hi': hi}
+    T = {'k': 'scaled', 'scale': draw(st.sampled_from(S_SCALES)), 'lo': lo, 'hi': hi}
+    if draw(st.integers(0, 3)) == 0:
+        # an explicitly declared resolution coarser than the grid (it is informative: the tolerance at the limits stays one step)
+        T['abs'] = T['scale'] * draw(st.sampled_from([3, 10, 100]))
+    return T
 
 
 @st.composite
@@ -132,6 +136,8 @@ def build(T):
         kw = {}
         if T.get('unit'):
             kw['unit'] = T['unit']
+        if T.get('abs'):
+            kw['absolute_resolution'] = T['abs']
         return dt.ScaledInteger(T['scale'], T['lo'] * T['scale'], T['hi'] * T['scale'], **kw)
     if k == 'bool':
         return dt.BoolType()
